@@ -91,7 +91,7 @@ class Run:
         return self.exit == 101 or b"panicked at" in self.stderr or (self.signal in (signal.SIGABRT, signal.SIGSEGV, signal.SIGBUS, signal.SIGILL))
 
 
-def run_breadlog(config_path, check=False, cwd=None, env=None, tmpdir=None, timeout=60, shim=None, binary=None):
+def run_breadlog(config_path, check=False, cwd=None, env=None, tmpdir=None, timeout=60, shim=None, binary=None, wrapper=()):
     """shim: dict(log=path, roots=[...], plan=str) to run under the interposer."""
     import time
     e = dict(os.environ if env is None else env)
@@ -106,7 +106,7 @@ def run_breadlog(config_path, check=False, cwd=None, env=None, tmpdir=None, time
         e["FSX_PLAN"] = shim.get("plan", "")
         e["FSX_STICKY_PATH_PREFIX"] = shim.get("sticky_prefix", "")
         open(shim["log"], "wb").close()
-    cmd = [binary or BIN, "-c", config_path]
+    cmd = list(wrapper) + [binary or BIN, "-c", config_path]
     if check:
         cmd.append("--check")
     import resource
